@@ -1,5 +1,6 @@
 #!/bin/bash
+ROOT=$(cd "$(dirname "$0")/.." && pwd)
 # run every registered check once in the thorough tier on the unchanged tree (evidence to a scratch directory); print exit codes and times
 out=$(mktemp -d /tmp/thorough_XXXX)
-for pid in "${@:-C01 C02 C03 C04 C05 C06 C07 C08 C09 C10 C12 C13 C14 C15 C16 C17 C19}"; do echo $pid; done | tr ' ' '\n' | xargs -P 3 -I{} bash -c 't0=$(date +%s); o=$(VERIF_OUT='$out' /verif/check {} --tier thorough 2>&1); rc=$?; echo "{} exit=$rc in $(( $(date +%s) - t0 ))s"; if [ $rc -ne 0 ]; then echo "$o" | grep -E "VIOLATION|CHECKER|Error|error" | head -5 | cut -c1-400; fi'
+for pid in "${@:-C01 C02 C03 C04 C05 C06 C07 C08 C09 C10 C12 C13 C14 C15 C16 C17 C19}"; do echo $pid; done | tr ' ' '\n' | xargs -P 3 -I{} bash -c 't0=$(date +%s); o=$(VERIF_OUT='$out' '$ROOT'/check {} --tier thorough 2>&1); rc=$?; echo "{} exit=$rc in $(( $(date +%s) - t0 ))s"; if [ $rc -ne 0 ]; then echo "$o" | grep -E "VIOLATION|CHECKER|Error|error" | head -5 | cut -c1-400; fi'
 echo "thorough-done (evidence under $out)"
